@@ -130,7 +130,7 @@ func (c *fsClient) resolveFields() {
 	var strFields []string
 	for i := 0; i < stt.NumFields(); i++ {
 		if b, ok := stt.Field(i).Type().Underlying().(*types.Basic); ok && b.Kind() == types.String {
-			strFields = append(strFields, stt.Field(i).Name())
+			strFields = append(strFields, fname(stt.Field(i)))
 		}
 	}
 	readArg := map[string]bool{}
@@ -152,7 +152,7 @@ func (c *fsClient) resolveFields() {
 				if u, ok := call.Common().Args[0].(*ssa.UnOp); ok {
 					if fa, ok := u.X.(*ssa.FieldAddr); ok {
 						if pt, ok := fa.X.Type().Underlying().(*types.Pointer); ok && types.Identical(pt.Elem(), c.stackT) {
-							readArg[stt.Field(fa.Field).Name()] = true
+							readArg[fname(stt.Field(fa.Field))] = true
 						}
 					}
 				}
@@ -202,7 +202,7 @@ func (c *fsClient) resolveFields() {
 						if u, ok := sto.Val.(*ssa.UnOp); ok {
 							if fa, ok := u.X.(*ssa.FieldAddr); ok {
 								if pt, ok := fa.X.Type().Underlying().(*types.Pointer); ok && types.Identical(pt.Elem(), c.stackT) {
-									joinArg[stt.Field(fa.Field).Name()]++
+									joinArg[fname(stt.Field(fa.Field))]++
 								}
 							}
 						}
@@ -961,7 +961,7 @@ func (c *fsClient) Call(x *Exec, st *State, fr *Frame, site ssa.CallInstruction,
 				v := x.load(st, mk("field", fa, nil, args[1]), nil)
 				same := v != nil && v.Op == "init" && len(v.Args) > 0 && v.Args[0].Op == "field" && v.Args[0].Aux == fa && v.Args[0].Args[0].Op == "field" && v.Args[0].Args[0].Aux == "Stack.cfg"
 				if !same && diff == "" {
-					diff = cfgT.Field(i).Name() + " = " + fmt.Sprint(v)
+					diff = fname(cfgT.Field(i)) + " = " + fmt.Sprint(v)
 				}
 			}
 			if diff == "" {
